@@ -24,6 +24,7 @@ import unified_planning as up
 import unified_planning.engines as engines
 from unified_planning.engines.mixins.compiler import CompilationKind, CompilerMixin
 from unified_planning.engines.results import CompilerResult
+from unified_planning.engines.compilers.utils import rewritten_problem_kind
 from unified_planning.exceptions import UPUsageError
 from unified_planning.model import (
     Problem,
@@ -174,20 +175,59 @@ class InterpretedFunctionsRemover(engines.engine.Engine, CompilerMixin):
         problem_kind: ProblemKind, compilation_kind: Optional[CompilationKind] = None
     ) -> ProblemKind:
         assert isinstance(problem_kind, ProblemKind)
-        new_kind = problem_kind.clone()
+        new_kind = rewritten_problem_kind(problem_kind)
+        if (
+            new_kind.has_interpreted_functions_in_conditions()
+            or new_kind.has_interpreted_functions_in_durations()
+            or new_kind.has_interpreted_functions_in_boolean_assignments()
+            or new_kind.has_interpreted_functions_in_numeric_assignments()
+            or new_kind.has_interpreted_functions_in_object_assignments()
+        ):
+            # a call whose value is known is replaced by a new static fluent over a new user type; the
+            # object standing for the value is selected by conditions of the form
+            # `(args == known_args) implies (parameter == object)`, a call whose value is not known
+            # is guarded by `not (args == known_args or ...)`
+            new_kind.set_typing("FLAT_TYPING")
+            new_kind.set_conditions_kind("EQUALITIES")
+            new_kind.set_conditions_kind("DISJUNCTIVE_CONDITIONS")
+            new_kind.set_conditions_kind("NEGATIVE_CONDITIONS")
+            # the new fluent has the return type of the interpreted function
+            new_kind.set_fluents_type("INT_FLUENTS")
+            new_kind.set_fluents_type("REAL_FLUENTS")
+            new_kind.set_problem_type("SIMPLE_NUMERIC_PLANNING")
+            new_kind.set_problem_type("GENERAL_NUMERIC_PLANNING")
         if new_kind.has_interpreted_functions_in_conditions():
-            new_kind.unset_conditions_kind("INTERPRETED_FUNCTIONS_IN_CONDITIONS")
+            # the condition of a conditional effect is not rewritten
+            if not new_kind.has_conditional_effects():
+                new_kind.unset_conditions_kind("INTERPRETED_FUNCTIONS_IN_CONDITIONS")
         if new_kind.has_interpreted_functions_in_durations():
             new_kind.unset_expression_duration("INTERPRETED_FUNCTIONS_IN_DURATIONS")
+            # an unknown duration bound becomes a (real) constant, a known one reads the new fluent
             new_kind.set_expression_duration("INT_TYPE_DURATIONS")
+            new_kind.set_expression_duration("REAL_TYPE_DURATIONS")
+            new_kind.set_expression_duration("STATIC_FLUENTS_IN_DURATIONS")
+            new_kind.set_time("DURATION_INEQUALITIES")
+        if (
+            new_kind.has_interpreted_functions_in_boolean_assignments()
+            or new_kind.has_interpreted_functions_in_numeric_assignments()
+            or new_kind.has_interpreted_functions_in_object_assignments()
+        ):
+            # a fluent assigned through an interpreted function gets a Boolean fluent that tracks whether
+            # its value is unknown: it is set by the effects on the fluent (to the disjunction of the
+            # tracking fluents of the fluents read) and every condition reading the fluent becomes
+            # `unknown or condition`
+            new_kind.set_conditions_kind("DISJUNCTIVE_CONDITIONS")
+            new_kind.set_effects_kind("FLUENTS_IN_BOOLEAN_ASSIGNMENTS")
+            new_kind.set_effects_kind("STATIC_FLUENTS_IN_BOOLEAN_ASSIGNMENTS")
         if new_kind.has_interpreted_functions_in_boolean_assignments():
             new_kind.unset_effects_kind("INTERPRETED_FUNCTIONS_IN_BOOLEAN_ASSIGNMENTS")
         if new_kind.has_interpreted_functions_in_numeric_assignments():
             new_kind.unset_effects_kind("INTERPRETED_FUNCTIONS_IN_NUMERIC_ASSIGNMENTS")
+            new_kind.set_effects_kind("STATIC_FLUENTS_IN_NUMERIC_ASSIGNMENTS")
         if new_kind.has_interpreted_functions_in_object_assignments():
             new_kind.unset_effects_kind("INTERPRETED_FUNCTIONS_IN_OBJECT_ASSIGNMENTS")
+            new_kind.set_effects_kind("STATIC_FLUENTS_IN_OBJECT_ASSIGNMENTS")
             new_kind.set_fluents_type("OBJECT_FLUENTS")
-
         return new_kind
 
     def _compile(
